@@ -78,6 +78,7 @@ for v in res['violations']:
     again = c.run_harness(binp, ['-mode', 'replay', '-in', f2])
     if not again['violations']:
         c.unreproduced('violation %s not reproduced' % key)
+        continue
     c.report(v['signature'], v['detail'], {'behaviour': b[: v['step'] + 1], 'harness': 'c16'})
 os.remove(f)
 
